@@ -1,20 +1,20 @@
 package main
 
 import (
-	"syscall"
-	"sync"
-	"net/http/httptest"
-	"net/http"
-	"time"
 	"archive/tar"
 	"bytes"
 	"compress/gzip"
 	"context"
 	"fmt"
 	"io"
+	"net/http"
+	"net/http/httptest"
 	"os"
 	"path/filepath"
 	"strings"
+	"sync"
+	"syscall"
+	"time"
 
 	api "github.com/polydawn/go-timeless-api"
 	"github.com/polydawn/go-timeless-api/rio"
